@@ -244,6 +244,8 @@ pub fn run(run: &mut Run) {
     let p_comm = Program::compile("d + t == t + d").unwrap();
     let p_add = Program::compile("t + d").unwrap();
     let p_sub = Program::compile("t - d").unwrap();
+    let p_add_rev = Program::compile("d + t").unwrap();
+    let p_chain = Program::compile("d + (t - d)").unwrap();
     let durs: Vec<i64> = {
         let mut v: Vec<i64> = vec![0, 1, -1, 999, 1_000_000_000, -1_000_000_000, 86_400_000_000_000, -86_400_000_000_000, i64::MAX, i64::MIN, i64::MAX - 1, i64::MIN + 1];
         for k in [3u32, 6, 10, 12, 15, 18] {
@@ -279,12 +281,19 @@ pub fn run(run: &mut Run) {
                         let case = || json!({"t": l.text(), "d_ns": dn});
                         let sum = subj::exec(&p_add, &ctx);
                         let dif = subj::exec(&p_sub, &ctx);
-                        run.trans(2);
+                        let rev = subj::exec(&p_add_rev, &ctx);
+                        let chain = subj::exec(&p_chain, &ctx);
+                        run.trans(4);
                         run.validated();
                         run.nontrivial();
                         // exact instants
                         let total = es as i128 * 1_000_000_000 + ens as i128;
-                        for (name, got, exact) in [("+", &sum, total + dn as i128), ("-", &dif, total - dn as i128)] {
+                        // (every result keeps the zone offset of the timestamp operand, whichever side it is on)
+                        let chain_ok = matches!(&dif, Out::Val(_));
+                        for (name, got, exact) in [("+", &sum, total + dn as i128), ("-", &dif, total - dn as i128), ("d+t", &rev, total + dn as i128), ("d+(t-d)", &chain, total)] {
+                            if name == "d+(t-d)" && !chain_ok {
+                                continue;
+                            }
                             match got {
                                 Out::Val(MV::Timestamp(gs, gn, go)) => {
                                     let g = *gs as i128 * 1_000_000_000 + *gn as i128;
